@@ -37,6 +37,12 @@ def c09(tier, replay=None):
         'and per app, migration dependencies); TLC computes for each of %d configurations the requirements in force '
         'among pending units and whether they can be met; %d were built as real projects and the order of '
         'applying_evolution / applying_migration signals judged against them.' % (n3all, n3))
+    n4 = _c09_handover_declared(report, tier, nt)
+    report.coverage['distinct_nontrivial'] += 0
+    report.coverage['rule'] += (
+        ' Part 4: Handover.tla with `declares`: the evolution carrying MoveToDjangoMigrations (which generates '
+        'dependencies itself) also declares AFTER_MIGRATIONS on another app\'s pending migration; %d handovers '
+        'replayed, the migration\'s statement has to precede the evolution\'s.' % n4)
     report.coverage['exhaustive'] = False
     return report.finish()
 
@@ -1149,10 +1155,14 @@ def c08(tier, replay=None):
     nledger = _c08_ledger(report, tier, nontrivial)
     nsplit = _c08_interleaved(report, tier, nontrivial)
     nunch = _c08_unchanged_signature(report, tier, nontrivial)
+    nlater = _c08_later_task_class_fails(report, tier, nontrivial)
+    report.notes.append('%d runs whose second task class (purge) fails after the evolutions ran' % nlater)
     report.notes.append('%d scenarios of the unchanged-signature family (SQL-only evolutions) replayed' % nunch)
     report.coverage['distinct_nontrivial'] = len(nontrivial)
     report.coverage['exhaustive'] = len(chosen) == ngen
     report.coverage['rule'] = (
+        'Part 5: runs that queue the apps\' evolutions AND the purge of a stale app whose table was dropped by hand: '
+        'the purge fails after the evolutions ran; nothing may be recorded for the incomplete run.  '
         'Part 4: upgrades that apply evolutions while the stored signature stays what it was (SQLMutation-only '
         'evolutions alone / next to model changes / next to another app, drivers evolve, migrate, API): every label '
         'recorded once, its SQL run once, its rows attached to a version saved by that very run, the next run a no-op.  '
@@ -1567,7 +1577,7 @@ INVARIANT RerunIsNoop
     report.add_tlc('Handover MaxK=1 M=3 (signal pairing of handover upgrades)', res.stats())
     by_cfg = {}
     for r in res.records:
-        if r.get('failFirst') or r.get('premarked'):
+        if r.get('failFirst') or r.get('premarked') or r.get('moveSql'):
             continue
         key = json_key([r['K'], r['S'], r['start'], sorted(r['companions'])], 0)
         by_cfg.setdefault(key, {})[r['run']] = r
@@ -3301,14 +3311,15 @@ INVARIANT SoftOnlyLegacyInitial
     by_cfg = {}
     for r in res.records:
         key = json_key([r['K'], r['S'], r['start'], sorted(r['companions']), bool(r.get('failFirst')),
-                        bool(r.get('premarked'))], 0)
+                        bool(r.get('premarked')), bool(r.get('moveSql')), bool(r.get('declares'))], 0)
         by_cfg.setdefault(key, {})[r['run']] = r
     items = sorted(by_cfg.items())
     rng = random.Random(seed() * 919 + 10)
     rng.shuffle(items)
     limit = 80 if tier == 'quick' else len(items)
     # keep every (start kind, S) combination represented
-    items.sort(key=lambda kv: (not kv[1][1].get('failFirst'), not kv[1][1].get('premarked'),
+    items.sort(key=lambda kv: (not kv[1][1].get('declares'), not kv[1][1].get('failFirst'),
+                               not kv[1][1].get('premarked'), not kv[1][1].get('moveSql'),
                                kv[1][1]['start'][0], kv[1][1]['S']))
     chosen = items[::max(1, len(items) // limit)][:limit] if len(items) > limit else items
 
@@ -3317,7 +3328,8 @@ INVARIANT SoftOnlyLegacyInitial
         r1 = runs[1]
         return H.replay({'K': r1['K'], 'S': r1['S'], 'start': r1['start'],
                          'companions': r1['companions'], 'failFirst': bool(r1.get('failFirst')),
-                         'premarked': bool(r1.get('premarked'))}, idx=i, M=M)
+                         'premarked': bool(r1.get('premarked')), 'moveSql': bool(r1.get('moveSql')),
+                         'declares': bool(r1.get('declares'))}, idx=i, M=M)
     with ThreadPoolExecutor(16) as ex:
         observations = list(ex.map(one, enumerate(chosen)))
     nontrivial = set()
@@ -3329,7 +3341,8 @@ INVARIANT SoftOnlyLegacyInitial
         r1 = runs[1]
         where = {'K': r1['K'], 'mark_applied_prefix': r1['S'], 'start': r1['start'],
                  'companions': sorted(r1['companions']), 'driver': obs.get('driver'),
-                 'failed_first_attempt': bool(r1.get('failFirst')), 'premarked': bool(r1.get('premarked'))}
+                 'failed_first_attempt': bool(r1.get('failFirst')), 'premarked': bool(r1.get('premarked')),
+                 'move_evolution_has_sql': bool(r1.get('moveSql')), 'declares_after_migration': bool(r1.get('declares'))}
         if obs['errors']:
             report.notes.append('start state could not be built: %r %r' % (where, obs['errors'][:1]))
             continue
@@ -3356,8 +3369,10 @@ INVARIANT SoftOnlyLegacyInitial
             if exp is None:
                 continue
             # the move itself carries no SQL: it is announced only along with other evolutions
-            exp_evo = [label_of(l) for l in exp['evoExecuted'] if l[0] != 'e_move']
-            o_evo = [l for l in o['evo_executed'] if l != 'e_move']
+            # a move without SQL of its own is announced only along with other evolutions
+            keep_move = bool(r1.get('moveSql'))
+            exp_evo = [label_of(l) for l in exp['evoExecuted'] if l[0] != 'e_move' or keep_move]
+            o_evo = [l for l in o['evo_executed'] if l != 'e_move' or keep_move]
             exp_soft = [H.mig_name(n) for n in (exp.get('soft') or [])]
             # announced = taken over as they are (soft) + run
             exp_mig = exp_soft + [H.mig_name(n) for n in exp['migExecuted']]
@@ -3387,11 +3402,17 @@ INVARIANT SoftOnlyLegacyInitial
                                         'duplicates': any(v > 1 for v in o['mig_rows'].values())}), detail)
             if o['sig_method'] != 'migrations' or o['sig_applied'] != sorted(o['mig_rows']):
                 report.fail(dict(fp, **{'class': 'signature-does-not-list-recorded-migrations'}), detail)
-            exp_cols = sorted(['id'] + [('%s%d' % (c[0], c[1])) if c[0] != 'name' else 'name'
+            exp_cols = sorted(['id'] + [('%s%d' % (c[0], c[1])) if c[0] not in ('name', 'x') else c[0]
                                         for c in exp['columns']])
             if o['columns'] != exp_cols:
                 report.fail(dict(fp, **{'class': 'schema-differs'}), dict(detail, expected_columns=exp_cols))
             ce = exp.get('companion') or {}
+            if ce.get('migBeforeMove'):
+                # the evolution that hands the app over declares AFTER_MIGRATIONS on the companion's
+                # pending migration: that migration's statement comes first
+                if o.get('pos_mig_m1') is None or o.get('pos_shop_x') is None or o['pos_mig_m1'] > o['pos_shop_x']:
+                    report.fail(dict(fp, **{'class': 'declared-after-migration-not-respected'}),
+                                dict(detail, pos_mig_m1=o.get('pos_mig_m1'), pos_shop_x=o.get('pos_shop_x')))
             for a, co in (o.get('companion') or {}).items():
                 if a == 'blog':
                     want = (list(ce.get('blogExecuted') or []), sorted(ce.get('blogRecorded') or []))
@@ -3542,6 +3563,74 @@ def _c08_unchanged_signature(report, tier, nontrivial):
     return len(results)
 
 
+def _c08_later_task_class_fails(report, tier, nontrivial):
+    """A run that queues two classes of tasks - the apps' evolutions and the purge of a stale app -
+    and fails in the SECOND one (the stale app's table was dropped by hand): the evolutions of the
+    first class have run, but the run did not complete, so nothing may be on record for it: no
+    Evolution row, no Version row."""
+    from concurrent.futures import ThreadPoolExecutor
+    from .djproj import Project
+    base = ['from django.db import models', '', '',
+            'class Item(models.Model):', '    name = models.CharField(max_length=20)']
+    add_evo = {'label': 'add_qty', 'mutations_src': ["AddField('Item', 'qty', models.IntegerField, null=True)"]}
+    scenarios = [(drv, n) for drv in ('cmd', 'api') for n in (1, 2)]
+
+    def run_one(sc):
+        drv, nevo = sc
+        apps = ['shop', 'blog', 'wiki']
+        p = Project(apps, tag='c08f')
+        out = {'scenario': sc}
+        try:
+            for a in apps:
+                p.deploy(a, '\n'.join(base) + '\n', [])
+            r0 = p.run({'action': 'evolve_api', 'app_prefixes': apps})
+            if r0['outcome'] != 'ok':
+                out['setup_error'] = (r0.get('error') or {}).get('msg')
+                return out
+            # blog goes stale and loses its table behind the tool's back; shop (and wiki) gain evolutions
+            p.set_installed(['shop', 'wiki'])
+            p.run({'action': 'exec_sql', 'app_prefixes': apps,
+                   'statements': [['PRAGMA foreign_keys = OFF', []], ['DROP TABLE "blog_item"', []]]})
+            src = '\n'.join(base + ['    qty = models.IntegerField(null=True)']) + '\n'
+            p.deploy('shop', src, [add_evo])
+            if nevo == 2:
+                p.deploy('wiki', src, [add_evo])
+            before = p.run({'action': 'snapshot', 'app_prefixes': apps})['post']['default']['book']
+            if drv == 'api':
+                res = p.run({'action': 'evolve_api', 'app_prefixes': apps, 'purge': True})
+            else:
+                res = p.run({'action': 'command', 'name': 'evolve', 'app_prefixes': apps,
+                             'options': {'execute': True, 'interactive': False, 'purge': True, 'verbosity': 0}})
+            after = res['post']['default']['book']
+            out.update({'outcome': res['outcome'], 'error': (res.get('error') or {}).get('msg'),
+                        'rows_before': before['evolutions'], 'rows_after': after['evolutions'],
+                        'versions_before': len(before['versions']), 'versions_after': len(after['versions']),
+                        'signals': [e['ev'] for e in res['events'] if e['ev'] in
+                                    ('evolving', 'evolved', 'evolving_failed', 'applied_evolution')]})
+            return out
+        finally:
+            p.destroy()
+    with ThreadPoolExecutor(8) as ex:
+        results = list(ex.map(run_one, scenarios))
+    for out in results:
+        drv, nevo = out['scenario']
+        report.coverage['evaluations'] += 1
+        if out.get('setup_error'):
+            report.notes.append('C08 later-task-class family: setup failed: %s' % out['setup_error'])
+            continue
+        report.coverage['traces_validated_against_impl'] += 1
+        nontrivial.add('later-class-fails:%s:%d' % (drv, nevo))
+        fp = {'family': 'later-task-class-fails', 'driver': drv}
+        if out['outcome'] == 'ok':
+            report.notes.append('C08 later-task-class family: the purge did not fail (%s)' % drv)
+            continue
+        if out['rows_after'] != out['rows_before'] or out['versions_after'] != out['versions_before']:
+            report.fail(dict(fp, **{'class': 'recorded-by-incomplete-run',
+                                    'evolution_rows': out['rows_after'] != out['rows_before'],
+                                    'version_rows': out['versions_after'] != out['versions_before']}), out)
+    return len(results)
+
+
 def _c08_interleaved(report, tier, nontrivial):
     """C08 over upgrades whose tasks are split into several batches (MigGraph.tla: evolutions of two
     apps ordered around each other and around migrations, incl. evolutions without SQL): every pending
@@ -3605,6 +3694,61 @@ INVARIANT ChainsAloneSatisfiable
         dups = sorted(set(x for x in rows if rows.count(x) > 1))
         if dups:
             report.fail({'class': 'label-recorded-twice', 'family': 'split-batches'}, dict(label, duplicates=dups))
+    return len(chosen)
+
+
+def _c09_handover_declared(report, tier, nontrivial):
+    """C09 on handovers (Handover.tla, `declares`): the evolution that carries MoveToDjangoMigrations -
+    which generates dependencies of its own - also DECLARES AFTER_MIGRATIONS on another app's pending
+    migration; that migration's statement has to run before the evolution's."""
+    import random
+    from concurrent.futures import ThreadPoolExecutor
+    from .common import seed
+    from .engines import handover as H
+    from .tlc import run_tlc, require_ok, write_cfg
+    cfg = write_cfg('MC_Handover_c09.cfg', '''
+SPECIFICATION Spec
+CONSTANTS
+  MaxK = 1
+  M = 3
+  EmitRecords = TRUE
+CONSTRAINT Constraint
+INVARIANT RerunIsNoop
+''')
+    res = require_ok(run_tlc('Handover', cfg, workers=4, timeout=3000), 'Handover.tla')
+    report.add_tlc('Handover MaxK=1 M=3 (declared AFTER_MIGRATIONS next to the move)', res.stats())
+    recs = [r for r in res.records if r.get('declares') and r['run'] == 1
+            and not r.get('failFirst') and not r.get('premarked')]
+    rng = random.Random(seed() * 131 + 9)
+    rng.shuffle(recs)
+    recs.sort(key=lambda r: (r['S'], r['K'], repr(r['start'])))
+    chosen = recs[::max(1, len(recs) // (12 if tier == 'quick' else 60))][:12 if tier == 'quick' else 60]
+
+    def one(ir):
+        i, r = ir
+        return H.replay({'K': r['K'], 'S': r['S'], 'start': r['start'], 'companions': r['companions'],
+                         'moveSql': True, 'declares': True}, idx=i, M=3)
+    with ThreadPoolExecutor(12) as ex:
+        observations = list(ex.map(one, enumerate(chosen)))
+    for r, obs in zip(chosen, observations):
+        report.coverage['evaluations'] += 1
+        where = {'part': 'handover', 'K': r['K'], 'mark_applied_prefix': r['S'], 'start': r['start'],
+                 'companions': sorted(r['companions']), 'driver': obs.get('driver')}
+        if obs['errors'] or 'run1' not in obs:
+            report.notes.append('C09 handover part: start state could not be built: %r' % (obs.get('errors') or [])[:1])
+            continue
+        report.coverage['traces_validated_against_impl'] += 1
+        nontrivial.add(json_key(where, 'handover'))
+        o = obs['run1']
+        if o['outcome'] != 'ok':
+            report.fail({'class': 'satisfiable-rejected', 'part': 'handover'}, dict(where, error=o['error']))
+            continue
+        if o.get('pos_shop_x') is None:
+            continue            # the move's evolution had been applied already
+        if o.get('pos_mig_m1') is None or o['pos_mig_m1'] > o['pos_shop_x']:
+            report.fail({'class': 'requirement-broken', 'part': 'handover', 'kinds': ['evo-after-mig']},
+                        dict(where, statements=o['statements'][:14], pos_mig_m1=o.get('pos_mig_m1'),
+                             pos_shop_x=o.get('pos_shop_x')))
     return len(chosen)
 
 
